@@ -170,6 +170,13 @@ func dischargeAll(workDir string, obls []*Obligation, timeoutS int) {
 					return
 				}
 				script := o.vc.scriptOpt(o.Upto, o.Path, o.Goal, false, false)
+				if tag == "" && len(o.Cubes) >= 3 && os.Getenv("GOCV_NOCUBES") == "" {
+					if r := solveCubes(workDir, fmt.Sprintf("o%04d", i), script, o.Cubes, tmo); r != nil {
+						o.Result = r
+						o.Result.Script = filepath.Join(workDir, fmt.Sprintf("o%04d.smt2", i))
+						return
+					}
+				}
 				prev := o.Result
 				t := tmo
 				if o.NoRetry {
@@ -207,4 +214,103 @@ func dischargeAll(workDir string, obls []*Obligation, timeoutS int) {
 	if len(again) > 0 && len(again) <= 8 && os.Getenv("GOCV_NORETRY") == "" {
 		run(again, 4, 3*timeoutS, "r")
 	}
+}
+
+
+// solveCubes: a short attempt on the whole query, then a case split over the truth values of the
+// unit's top-level branch conditions (2^k cubes, k <= 6). The query is unsat iff every cube is;
+// a cube that is sat makes the query sat. nil: undecided here, the caller goes on with the race.
+func solveCubes(workDir, name, script string, cubes []Term, timeoutS int) *SolveResult {
+	start := time.Now()
+	file := filepath.Join(workDir, name+".smt2")
+	_ = os.WriteFile(file, []byte(script), 0o644)
+	// the whole query first, briefly
+	{
+		ctx, cancel := context.WithCancel(context.Background())
+		type a1 struct{ solver, status string }
+		ch := make(chan a1, 2)
+		for _, sp := range solvers[:2] {
+			sp := sp
+			go func() { st, _ := runSolver(ctx, sp, file, 4); ch <- a1{sp.name, st} }()
+		}
+		for i := 0; i < 2; i++ {
+			a := <-ch
+			if a.status == "unsat" || a.status == "sat" {
+				cancel()
+				return &SolveResult{Status: a.status, Solver: a.solver, Ms: time.Since(start).Milliseconds(), Bytes: len(script), Outputs: map[string]string{}}
+			}
+		}
+		cancel()
+	}
+	k := len(cubes)
+	n := 1 << uint(k)
+	per := timeoutS / 2
+	if per < 10 {
+		per = 10
+	}
+	type res struct{ status string }
+	out := make(chan res, n)
+	ctx, cancel := context.WithCancel(context.Background())
+	defer cancel()
+	sem := make(chan struct{}, 8)
+	for m := 0; m < n; m++ {
+		m := m
+		go func() {
+			sem <- struct{}{}
+			defer func() { <-sem }()
+			if ctx.Err() != nil {
+				out <- res{"cancelled"}
+				return
+			}
+			var extra strings.Builder
+			for j := 0; j < k; j++ {
+				if m&(1<<uint(j)) != 0 {
+					extra.WriteString("(assert " + cubes[j].S + ")\n")
+				} else {
+					extra.WriteString("(assert (not " + cubes[j].S + "))\n")
+				}
+			}
+			sc := strings.Replace(script, "(check-sat)\n", extra.String()+"(check-sat)\n", 1)
+			f := filepath.Join(workDir, fmt.Sprintf("%s_c%02d.smt2", name, m))
+			_ = os.WriteFile(f, []byte(sc), 0o644)
+			// z3-new and cvc5 side by side on the cube
+			c2, cancel2 := context.WithCancel(ctx)
+			ch := make(chan string, 2)
+			for _, sp := range solvers[:2] {
+				sp := sp
+				go func() { st, _ := runSolver(c2, sp, f, per); ch <- st }()
+			}
+			st := "unknown"
+			for i := 0; i < 2; i++ {
+				a := <-ch
+				if a == "unsat" || a == "sat" {
+					st = a
+					break
+				}
+			}
+			cancel2()
+			_ = os.Remove(f)
+			out <- res{st}
+		}()
+	}
+	allUnsat := true
+	for m := 0; m < n; m++ {
+		r := <-out
+		switch r.status {
+		case "unsat":
+		case "sat":
+			cancel()
+			return &SolveResult{Status: "sat", Solver: "cubes", Ms: time.Since(start).Milliseconds(), Bytes: len(script), Outputs: map[string]string{}}
+		default:
+			allUnsat = false
+			cancel() // one undecided cube: no verdict from the split
+		}
+		if !allUnsat {
+			break
+		}
+	}
+	if allUnsat {
+		return &SolveResult{Status: "unsat", Solver: fmt.Sprintf("cubes(%d)", n), Ms: time.Since(start).Milliseconds(), Bytes: len(script), Outputs: map[string]string{}}
+	}
+	return nil
 }
